@@ -595,7 +595,8 @@ class Seams:
         import copy
         import types
         self._pristine, self._pristine_names, self._pristine_defaults = [], {}, []
-        seen = set()
+        self._pristine_fattrs, self._pristine_cells = [], []
+        seen, seen_attrs = set(), set()
         for m in self.mods:
             self._pristine_names[m.__name__] = set(vars(m))
             for k, v in list(vars(m).items()):
@@ -618,6 +619,26 @@ class Seams:
                         if isinstance(a, types.FunctionType):
                             fns.append(a)
             for f in fns:
+                g = f
+                while g is not None and id(g) not in seen_attrs:
+                    seen_attrs.add(id(g))
+                    try:
+                        self._pristine_fattrs.append((g, copy.deepcopy({k: v for k, v in g.__dict__.items()
+                                                                       if k != "__wrapped__" and not callable(v)})))
+                    except Exception:  # noqa: BLE001
+                        pass
+                    for cell in (g.__closure__ or ()):
+                        try:
+                            v = cell.cell_contents
+                        except ValueError:
+                            continue
+                        if isinstance(v, (dict, list, set)) and id(cell) not in seen_attrs:
+                            seen_attrs.add(id(cell))
+                            try:
+                                self._pristine_cells.append((cell, copy.deepcopy(v)))
+                            except Exception:  # noqa: BLE001
+                                pass
+                    g = getattr(g, "__wrapped__", None)
                 while f is not None and id(f) not in seen:
                     seen.add(id(f))
                     d = f.__defaults__
@@ -630,6 +651,24 @@ class Seams:
 
     def _restore_pristine(self):
         import copy
+        for cell, d in self._pristine_cells:
+            cur = cell.cell_contents
+            if cur != d:
+                fresh = copy.deepcopy(d)
+                if isinstance(cur, list):
+                    cur[:] = fresh
+                else:
+                    cur.clear()
+                    cur.update(fresh)
+        for f, d in self._pristine_fattrs:
+            fd = f.__dict__
+            if not fd and not d:
+                continue
+            cur = {k: v for k, v in fd.items() if k != "__wrapped__" and not callable(v)}
+            if cur != d:
+                for k in cur:
+                    del fd[k]
+                fd.update(copy.deepcopy(d))
         for m, k, v, container in self._pristine:
             g = m.__dict__
             cur = g.get(k, _MISSING)
